@@ -214,6 +214,7 @@ contract(
     modifies=[],
     requires=["all(expr.scope_state.stack[j] is not None for j in range(len(expr.scope_state.stack)))"],
     ensures=[
+        "result is not None",
         # a fresh list of (fresh) layer dicts ...
         "all(result[j] is not None and isinstance(result[j], dict) for j in range(len(result)))",
         # ... outermost first: the expression's own `scope` is layer 0 whenever it is non-empty
